@@ -26,12 +26,23 @@
 (*                              AT LOAD TIME while replaying: a key whose first expiry has passed by the time  *)
 (*                              of the restart is dropped although a later expireAt/persist had extended it     *)
 (*                              (the 'X' record is then an orphan and is ignored): a live key is lost.          *)
+(*   Dev_CacheFillOutsideLock   (seeded-change class, not in the code): get() on a cache miss copies the value *)
+(*                              under _mutex, RELEASES it, and only then fills the cache.  The code today does   *)
+(*                              copy + fill under one _mutex hold, so Get(k) is ONE action; with the flag it is  *)
+(*                              two (GetRead, GetFill) with the reader's private copy in `pendFill` (at most     *)
+(*                              NReaders reader processes in that window).  Any writer action or worker step on  *)
+(*                              the same key may run in between; the late fill re-installs the OLD value+expiry  *)
+(*                              and every later get() is served from the cache fast path.                         *)
+(* Concurrency reading: every API call of the code holds _mutex for its whole body, so concurrent callers are    *)
+(* interleavings of these atomic actions (writers, readers, eviction worker); only a flag that splits a critical  *)
+(* section adds interleavings.                                                                                     *)
 (* Generator mode (Emit, background steps off): prints every maximal history as a driver case line.          *)
 EXTENDS KvAbs, TLC
 
 CONSTANTS NK, NV, MaxTime, MaxTtl, MaxOps, CacheMax,
           OpKinds, WorkerOn,
           Dev_ExpiredKeyResurrected, Dev_ReplayDropsPerRecord,
+          Dev_CacheFillOutsideLock, NReaders,
           Emit
 
 Keys == 1..NK
@@ -42,8 +53,9 @@ AbsentL == [val |-> 0, exp |-> Inf]
 PrefixKeys == IF NK >= 2 THEN <<1, 2>> ELSE <<1>>
 MaxTid == MaxOps + 2 * NK + 2
 
-VARIABLES kv, expiry, cache, timers, queue, snap, dlog, now, up, m, nops, hist
-vars == <<kv, expiry, cache, timers, queue, snap, dlog, now, up, m, nops, hist>>
+VARIABLES kv, expiry, cache, timers, queue, snap, dlog, now, up, m, nops, hist,
+          pendFill      \* Dev_CacheFillOutsideLock: value copies of readers that have released _mutex and not yet filled the cache
+vars == <<kv, expiry, cache, timers, queue, snap, dlog, now, up, m, nops, hist, pendFill>>
 
 O(op, k, v, d, t) == [op |-> op, k |-> k, v |-> v, d |-> d, t |-> t, ks |-> <<>>, vs |-> <<>>]
 OB(op, ks, vs, d) == [op |-> op, k |-> 0, v |-> 0, d |-> d, t |-> 0, ks |-> ks, vs |-> vs]
@@ -66,12 +78,13 @@ CacheUpd(c, k, v, e) ==            \* updateCache: set of possible results (vict
 
 Init == /\ kv = [k \in Keys |-> 0] /\ expiry = [k \in Keys |-> NoExp] /\ cache = [k \in Keys |-> NoC]
         /\ timers = {} /\ queue = <<>> /\ snap = [k \in Keys |-> AbsentL] /\ dlog = <<>>
-        /\ now = 0 /\ up = TRUE /\ m = [k \in Keys |-> NoKey] /\ nops = 0 /\ hist = <<>>
+        /\ now = 0 /\ up = TRUE /\ m = [k \in Keys |-> NoKey] /\ nops = 0 /\ hist = <<>> /\ pendFill = {}
 
 (* bookkeeping common to all controllable steps: Abs effect, step count, history *)
 Did(o) == /\ m' = AbsEff(o, m, now, FALSE)
           /\ nops' = nops + 1
           /\ hist' = (IF Emit THEN Append(hist, o) ELSE hist)
+          /\ UNCHANGED pendFill
 Can(kind) == up /\ nops < MaxOps /\ kind \in OpKinds
 
 (* ------------------------------------------------------------------ writes *)
@@ -172,45 +185,59 @@ RemovePrefix ==
 
 (* ------------------------------------------------------------------ get(): the only read that changes state *)
 Get(k) ==
-    /\ Can("get")
+    /\ Can("get") /\ ~Dev_CacheFillOutsideLock
     /\ IF cache[k].val # 0 /\ cache[k].exp > now
        THEN UNCHANGED cache                                           \* fast path: answered from the cache
        ELSE IF kv[k] # 0 /\ ~Expired(k)
-            THEN cache' \in CacheUpd(cache, k, kv[k], expiry[k].exp)  \* slow path refills the cache with the expiry
+            THEN cache' \in CacheUpd(cache, k, kv[k], expiry[k].exp)  \* slow path: copy + cache fill under ONE _mutex hold
             ELSE UNCHANGED cache
     /\ Did(O("get", k, 0, 0, 0))
     /\ UNCHANGED <<kv, expiry, timers, queue, snap, dlog, now, up>>
+
+(* Dev_CacheFillOutsideLock: the same call as two critical sections *)
+GetRead(k) ==
+    /\ Can("get") /\ Dev_CacheFillOutsideLock
+    /\ IF ~(cache[k].val # 0 /\ cache[k].exp > now) /\ kv[k] # 0 /\ ~Expired(k) /\ Cardinality(pendFill) < NReaders
+       THEN pendFill' = pendFill \cup {[k |-> k, val |-> kv[k], exp |-> expiry[k].exp]}     \* copy taken, _mutex released
+       ELSE UNCHANGED pendFill
+    /\ m' = m /\ nops' = nops + 1 /\ hist' = (IF Emit THEN Append(hist, O("get", k, 0, 0, 0)) ELSE hist)
+    /\ UNCHANGED <<kv, expiry, cache, timers, queue, snap, dlog, now, up>>
+GetFill(r) ==
+    /\ up /\ Dev_CacheFillOutsideLock /\ r \in pendFill
+    /\ cache' \in CacheUpd(cache, r.k, r.val, r.exp)                                       \* ... filled later, without it
+    /\ pendFill' = pendFill \ {r}
+    /\ UNCHANGED <<kv, expiry, timers, queue, snap, dlog, now, up, m, nops, hist>>
 
 (* ------------------------------------------------------------------ time, eviction path *)
 TimePasses(d) ==
     /\ nops < MaxOps /\ "tick" \in OpKinds /\ now + d <= MaxTime
     /\ now' = now + d
     /\ nops' = nops + 1 /\ hist' = (IF Emit THEN Append(hist, O("tick", 0, 0, d, 0)) ELSE hist)
-    /\ UNCHANGED <<kv, expiry, cache, timers, queue, snap, dlog, up, m>>
+    /\ UNCHANGED <<kv, expiry, cache, timers, queue, snap, dlog, up, m, pendFill>>
 
 Fire(t) == /\ WorkerOn /\ up /\ t \in timers
            /\ timers' = timers \ {t} /\ queue' = Append(queue, t)
-           /\ UNCHANGED <<kv, expiry, cache, snap, dlog, now, up, m, nops, hist>>
+           /\ UNCHANGED <<kv, expiry, cache, snap, dlog, now, up, m, nops, hist, pendFill>>
 
 Job == Head(queue)
 WorkerStale == /\ WorkerOn /\ up /\ queue # <<>>
                /\ (~HasExp(Job.k) \/ expiry[Job.k].tid # Job.tid)
                /\ queue' = Tail(queue)
-               /\ UNCHANGED <<kv, expiry, cache, timers, snap, dlog, now, up, m, nops, hist>>
+               /\ UNCHANGED <<kv, expiry, cache, timers, snap, dlog, now, up, m, nops, hist, pendFill>>
 WorkerReArm == /\ WorkerOn /\ up /\ queue # <<>>
                /\ HasExp(Job.k) /\ expiry[Job.k].tid = Job.tid /\ expiry[Job.k].exp > now
                /\ LET tid == Fresh(UsedTids(timers, queue, expiry)) IN
                   /\ timers' = timers \cup {[tid |-> tid, k |-> Job.k]}
                   /\ expiry' = [expiry EXCEPT ![Job.k].tid = tid]
                /\ queue' = Tail(queue)
-               /\ UNCHANGED <<kv, cache, snap, dlog, now, up, m, nops, hist>>
+               /\ UNCHANGED <<kv, cache, snap, dlog, now, up, m, nops, hist, pendFill>>
 WorkerEvict == /\ WorkerOn /\ up /\ queue # <<>>
                /\ HasExp(Job.k) /\ expiry[Job.k].tid = Job.tid /\ expiry[Job.k].exp <= now
                /\ kv' = [kv EXCEPT ![Job.k] = 0] /\ expiry' = [expiry EXCEPT ![Job.k] = NoExp]
                /\ cache' = [cache EXCEPT ![Job.k] = NoC]
                /\ dlog' = LogApp(dlog, <<R("D", Job.k, 0, Inf)>>)
                /\ queue' = Tail(queue)
-               /\ UNCHANGED <<timers, snap, now, up, m, nops, hist>>
+               /\ UNCHANGED <<timers, snap, now, up, m, nops, hist, pendFill>>
 
 (* ------------------------------------------------------------------ compaction, close, reopen *)
 Compact ==
@@ -228,7 +255,7 @@ Compact ==
 (* orderly shutdown: the worker drains its queue first (its steps are the Worker* actions), pending timers are *)
 (* cancelled, memory is gone                                                                                  *)
 Close ==
-    /\ Can("close") /\ queue = <<>>
+    /\ Can("close") /\ queue = <<>> /\ pendFill = {}
     /\ up' = FALSE /\ timers' = {}
     /\ kv' = [k \in Keys |-> 0] /\ expiry' = [k \in Keys |-> NoExp] /\ cache' = [k \in Keys |-> NoC]
     /\ Did(O("close", 0, 0, 0, 0))
@@ -265,11 +292,12 @@ Reopen ==
        /\ timers' = armed
     /\ up' = TRUE /\ queue' = <<>>
     /\ hist' = (IF Emit THEN Append(hist, O("open", 0, 0, 0, 0)) ELSE hist)
-    /\ UNCHANGED <<cache, snap, dlog, now, m, nops>>
+    /\ UNCHANGED <<cache, snap, dlog, now, m, nops, pendFill>>
 
 Next == \/ \E k \in Keys, v \in Vals : Set(k, v)
         \/ \E k \in Keys, v \in Vals, d \in 1..MaxTtl : SetTtl(k, v, d)
-        \/ \E k \in Keys : Remove(k) \/ Persist(k) \/ Get(k)
+        \/ \E k \in Keys : Remove(k) \/ Persist(k) \/ Get(k) \/ GetRead(k)
+        \/ \E k \in Keys, v \in Vals, e \in (0..(MaxTime + MaxTtl + 1)) \cup {Inf} : GetFill([k |-> k, val |-> v, exp |-> e])
         \/ \E k \in Keys, t \in 0..(MaxTime + 1) : ExpireAt(k, t)
         \/ \E a \in Vals, d \in {0, 1} : SetBatch(<<a, NV>>, d)
         \/ Clear \/ RemovePrefix \/ Compact \/ Close \/ Reopen
